@@ -31,6 +31,10 @@ TRUSTED = [
     "lengths; only the CLASS of an outcome is modelled (a number / a vector / a matrix vs. an exception class)",
     "`assert` statements are modelled as raising AssertionError (python -O is outside the model)",
     "cvxpy: variables and expression values are None when the status is infeasible / unbounded (*_inaccurate included)",
+    "option validation: generated facts for PEP.solve's two string options (Gen/Handlers.v opt_return, opt_heuristic) and for "
+    "the primitive steps' option dispatches (step_option_dispatches: else branch raises ValueError, no return precedes the "
+    "dispatch; theorem C16_step_options); the wrappers' check of a constraint's sense and every crossing with numeric "
+    "boundary values rest on the api-options stream alone",
 ]
 ASSUMES = [
     "C16_none: the wrapper reports `no finite optimum` by returning None as value (CvxpyWrapper: cvxpy's objective.value); "
@@ -539,13 +543,145 @@ def stream_options(tier, seed):
                                   note="an invalid return_primal_or_dual / heuristic is detected only AFTER the solver ran"))
 
 
+# ------------------------------------------------------------------------------------------ options of the whole public API
+INVALID_STRINGS = ["relativ", "Absolute", "ABSOLUTE", " absolute", "absolute ", "", None, 0, 1, 2.5, "PD_gapiii", "pd_gapI",
+                   "PD_gap", "PD_gapIV", True, ("absolute",), "relative\n"]
+NUMERIC_BOUNDARY = [0, 0.0, -1, -0.5, 1, 1.0, 0.25, 1e9, 1e-12]
+
+
+def documented_value_errors():
+    """every docstring under PEPit/ (examples excluded) that mentions ValueError, and every `raise ValueError` site"""
+    import ast
+    import glob
+    from .common import REPO
+    root = os.path.join(REPO, "PEPit")
+    doc, sites = [], []
+    for p in sorted(glob.glob(os.path.join(root, "**", "*.py"), recursive=True)):
+        rel = os.path.relpath(p, root)
+        if rel.split(os.sep)[0] == "examples":
+            continue
+        tree = ast.parse(open(p).read())
+        for n in ast.walk(tree):
+            if isinstance(n, (ast.FunctionDef, ast.ClassDef)):
+                d = ast.get_docstring(n) or ""
+                if "ValueError" in d and isinstance(n, ast.FunctionDef):
+                    doc.append("%s:%s" % (rel, n.name))
+                if isinstance(n, ast.FunctionDef):
+                    for r in ast.walk(n):
+                        if isinstance(r, ast.Raise) and r.exc is not None and "ValueError" in ast.unparse(r.exc)[:12]:
+                            sites.append("%s:%s" % (rel, n.name))
+    return sorted(set(doc)), sorted(set(sites))
+
+
+def stream_api_options(tier, seed):
+    """every option parameter of the public API that is validated with a ValueError (PEP.solve: return_primal_or_dual,
+    dimension_reduction_heuristic; inexact_gradient_step: notion; inexact_proximal_step: opt; the wrappers' check of a
+    constraint's sense), invalid values CROSSED with boundary values of the numeric parameters and with the other options:
+    an invalid value must raise ValueError on every combination, a valid one must not raise."""
+    from PEPit import PEP, Point, Expression, Constraint
+    from PEPit.functions import SmoothConvexFunction, ConvexFunction
+    from PEPit import primitive_steps as ps
+    rng = random.Random(seed * 31337 + 160)
+    problems, rows = [], {}
+    n = 0
+
+    def record(api, kind, got):
+        rows.setdefault(api, {}).setdefault(kind, {})
+        rows[api][kind][got] = rows[api][kind].get(got, 0) + 1
+
+    def fresh(smooth=True):
+        pep = PEP()
+        f = pep.declare_function(SmoothConvexFunction, L=1.) if smooth else pep.declare_function(ConvexFunction)
+        x0 = pep.set_initial_point()
+        return pep, f, x0
+
+    # ---- inexact_gradient_step(x0, f, gamma, epsilon, notion)
+    for notion in INVALID_STRINGS + ["absolute", "relative"]:
+        valid = notion in ("absolute", "relative") and isinstance(notion, str)
+        for eps in NUMERIC_BOUNDARY:
+            for gamma in ([0, 1, -1, 1e6, 0.5] if tier != "quick" else [0, 1, -1, 1e6]):
+                pep, f, x0 = fresh()
+                before = (len(f.list_of_points), Point.counter)
+                got = outcome(lambda: ps.inexact_gradient_step(x0, f, gamma=gamma, epsilon=eps, notion=notion))
+                n += 1
+                record("inexact_gradient_step(notion)", "valid" if valid else "invalid", got)
+                if (not valid and got != "ValueError") or (valid and got != "value"):
+                    problems.append(dict(kind="invalid-option-accepted" if not valid else "valid-option-rejected",
+                                         api="inexact_gradient_step", option="notion", value=repr(notion), epsilon=eps,
+                                         gamma=gamma, outcome=got))
+    # ---- inexact_proximal_step(x0, f, gamma, opt)
+    for opt in INVALID_STRINGS + ["PD_gapI", "PD_gapII", "PD_gapIII"]:
+        valid = opt in ("PD_gapI", "PD_gapII", "PD_gapIII") and isinstance(opt, str)
+        for gamma in NUMERIC_BOUNDARY:
+            for smooth in (True, False):
+                pep, f, x0 = fresh(smooth)
+                got = outcome(lambda: ps.inexact_proximal_step(x0, f, gamma, opt=opt))
+                n += 1
+                record("inexact_proximal_step(opt)", "valid" if valid else "invalid", got)
+                if not valid and got != "ValueError":
+                    problems.append(dict(kind="invalid-option-accepted", api="inexact_proximal_step", option="opt",
+                                         value=repr(opt), gamma=gamma, outcome=got))
+                if valid and got != "value" and gamma != 0:
+                    problems.append(dict(kind="valid-option-rejected", api="inexact_proximal_step", option="opt",
+                                         value=repr(opt), gamma=gamma, outcome=got))
+    # ---- the wrappers' check of a constraint's sense (the constructor asserts; the attribute can be overwritten)
+    for sense in ["lower", "Equality", "", None, 0, "inequality", "equality"]:
+        valid = sense in ("inequality", "equality")
+        pep, P, X = model_of("solvable", rng)
+        c = (P[0] ** 2 <= 4)
+        c.equality_or_inequality = sense
+        pep.add_constraint(c)
+        with H.captured_output():
+            got = outcome(lambda: pep.solve(verbose=0))
+        n += 1
+        record("wrapper.send_constraint_to_solver(sense)", "valid" if valid else "invalid", got)
+        if not valid and got != "ValueError":
+            problems.append(dict(kind="invalid-option-accepted", api="CvxpyWrapper.send_constraint_to_solver",
+                                 option="equality_or_inequality", value=repr(sense), outcome=got))
+    # ---- PEP.solve: each string option crossed with the other options
+    combos = []
+    for v in ["both", "Dual", "", None, 1]:
+        for other in (dict(), dict(dimension_reduction_heuristic="trace"), dict(wrapper="no_such_solver"), dict(verbose=1)):
+            combos.append(("return_primal_or_dual", v, other))
+    for v in ["rank", "Trace", "log", 7]:
+        for other in (dict(return_primal_or_dual="primal"), dict(return_primal_or_dual="dual", verbose=1)):
+            combos.append(("dimension_reduction_heuristic", v, other))
+    if tier == "quick":
+        combos = combos[::2]
+    for var, v, other in combos:
+        pep, P, X = model_of("solvable", rng)
+        kw = dict(other)
+        kw[var] = v
+        kw.setdefault("verbose", 0)
+        with H.captured_output():
+            got = outcome(lambda: pep.solve(**kw))
+        n += 1
+        record("PEP.solve(%s)" % var, "invalid", got)
+        ok = got == "ValueError" or (var == "dimension_reduction_heuristic" and v == 7 and got == "AttributeError")
+        if not ok:
+            problems.append(dict(kind="invalid-option-accepted", api="PEP.solve", option=var, value=repr(v), others=other,
+                                 outcome=got))
+    doc, sites = documented_value_errors()
+    return dict(name="api-options", evaluations=n, distinct_nontrivial=n,
+                rule="one evaluation = one call of one API entry with one (option value, numeric boundary values, other "
+                     "options) combination; an invalid option value must raise ValueError, a valid one must not raise",
+                samples=[dict(api="inexact_gradient_step", notion="relativ", epsilon=0, gamma=1,
+                              outcome=rows.get("inexact_gradient_step(notion)", {}).get("invalid"))],
+                n_mismatch=0, mismatches=[], problems=problems[:5], n_problems=len(problems),
+                distribution=dict(outcomes=rows, docstrings_mentioning_ValueError=doc, raise_ValueError_sites=sites,
+                                  invalid_values=[repr(v) for v in INVALID_STRINGS],
+                                  numeric_boundary=NUMERIC_BOUNDARY,
+                                  note="a number as heuristic raises AttributeError (`.startswith`), also an error"))
+
+
 def correspondence(tier, seed, corpus=()):
     problems = []
     for payload in corpus or []:
         if replay(payload):
             problems.append(dict(kind="corpus-case-fails", case=payload))
     out = []
-    for name, fn in (("accessors-vs-model", stream_accessors), ("solve-outcomes", stream_solve), ("options", stream_options)):
+    for name, fn in (("accessors-vs-model", stream_accessors), ("solve-outcomes", stream_solve), ("options", stream_options),
+                     ("api-options", stream_api_options)):
         try:
             s = fn(tier, seed)
         except Exception:       # one stream dying must not hide what the others found
@@ -581,6 +717,9 @@ def search(tier, seed):
     if s["problems"]:
         return s["problems"][0]
     s = stream_options("quick", seed + 3)
+    if s["problems"]:
+        return s["problems"][0]
+    s = stream_api_options("quick", seed + 3)
     if s["problems"]:
         return s["problems"][0]
     return None
@@ -668,6 +807,18 @@ def replay(payload):
             return False
     if kind in ("number-without-solution", "unsolved-accessor", "failed-solve-assigned"):
         return bool(stream_solve("quick", int(payload.get("seed", 0)))["problems"])
+    if kind in ("invalid-option-accepted", "valid-option-rejected") and payload.get("api") == "inexact_gradient_step":
+        from PEPit import PEP
+        from PEPit.functions import SmoothConvexFunction
+        from PEPit import primitive_steps as ps
+        pep = PEP()
+        f = pep.declare_function(SmoothConvexFunction, L=1.)
+        x0 = pep.set_initial_point()
+        v = eval(payload["value"], {})
+        got = outcome(lambda: ps.inexact_gradient_step(x0, f, gamma=payload["gamma"], epsilon=payload["epsilon"], notion=v))
+        return got != ("ValueError" if kind == "invalid-option-accepted" else "value")
+    if kind in ("invalid-option-accepted", "valid-option-rejected") and payload.get("api"):
+        return bool(stream_api_options("quick", int(payload.get("seed", 0)))["problems"])
     if kind == "invalid-option-accepted":
         return bool(stream_options("quick", int(payload.get("seed", 0)))["problems"])
     if kind == "model-differs":
